@@ -108,6 +108,10 @@ impl<H: HashChain> HssPrivateKey<H> {
         let moved = core::mem::take(aux_data);
         *aux_data = &mut moved[..aux_len];
 
+        // A fresh buffer is only marked by its first byte; clear the rest so that leftover
+        // bytes are not mistaken for cached tree nodes.
+        aux_data.fill(0);
+
         let aux_level = hss_optimal_aux_level(aux_len, *top_lms_parameter, None);
         hss_store_aux_marker(aux_data, aux_level);
 
